@@ -21,7 +21,10 @@ ASSUME = ["frames completed are counted by emulate_frames(FrameCount(n)) returni
 
 
 def run(tier, seed):
-    return run_ula(PID, tier, seed, ["MC_Ula.cfg", "MC_Ula128.cfg"], scen, rule, ASSUME).finish()
+    chk = run_ula(PID, tier, seed, ["MC_Ula.cfg", "MC_Ula128.cfg"], scen, rule, ASSUME)
+    # the conservation clause as an inductive step of Ula.tla's Tick, for every frame length and every step <= a frame
+    chk.cov["tlaps"] = tlaps("UlaProofs", PID, shared_with="Ula", shared=("Tick",))
+    return chk.finish()
 
 
 def replay(path, seed):
